@@ -46,6 +46,11 @@ pub enum Tok {
     /// and wake-ups delivered to the old waker reach nobody. Only valid outside a stream poll
     /// and after the receiver has been polled at least once since the last migration.
     Migrate,
+    /// a NEW stream is inserted under key i while the old one is still registered (a peer that
+    /// comes back under its identity before the socket noticed that the old connection is
+    /// dead): the old stream and whatever it still held are discarded, the new one must be
+    /// polled. Only between polls.
+    Replace(u8),
 }
 
 pub type Item = (u8, u32, u32); // key, generation, seq
@@ -86,6 +91,13 @@ pub struct World {
     polls_at_recv_start: u64,
     pub spin_detected: bool,
     pub migrated: bool,
+    pub replaced: bool,
+    /// key of the stream whose poll_next is executing
+    in_poll_key: Option<u8>,
+    in_poll_gen: u32,
+    /// (key, generation) whose item may still be delivered by the receiver poll in progress
+    grace: Option<(u8, u32)>,
+    pub replaced_during_own_poll: bool,
 }
 
 pub struct ScriptStream {
@@ -220,6 +232,42 @@ fn exec(world: &Arc<Mutex<World>>, t: Tok, in_window: bool) -> bool {
             handle.insert(i as u8, stream);
             true
         }
+        Tok::Replace(i) => {
+            // also INSIDE a poll window (the accept path runs on another thread): if the stream
+            // being polled is the one replaced, the item that poll is just handing out was
+            // received before the replacement and is still delivered
+            let Some(i) = idx(i) else { return false };
+            let (stream, handle) = {
+                let mut w = world.lock().unwrap();
+                let polled = w.in_poll_key;
+                let s = &mut w.streams[i];
+                if !s.live {
+                    return false;
+                }
+                let old_gen = s.gen;
+                s.gen += 1;
+                s.queue.clear();
+                s.pending_expect.clear();
+                s.closed = false;
+                s.bypass = None;
+                if let Some(wk) = s.waker.take() {
+                    s.old_wakers.push(wk);
+                }
+                let gen = s.gen;
+                w.replaced = true;
+                if in_window {
+                    w.window_wakes += 1;
+                    if polled == Some(i as u8) {
+                        let _ = old_gen;
+                        w.grace = Some((i as u8, w.in_poll_gen));
+                        w.replaced_during_own_poll = true;
+                    }
+                }
+                (ScriptStream { key: i as u8, gen, world: world.clone() }, w.handle.clone().unwrap())
+            };
+            handle.insert(i as u8, stream);
+            true
+        }
         Tok::Remove(i) => {
             let Some(i) = idx(i) else { return false };
             if in_window {
@@ -305,6 +353,16 @@ impl Stream for ScriptStream {
             let mut w = world.lock().unwrap();
             w.stream_polls += 1;
             w.in_poll = true;
+            w.in_poll_key = Some(self.key);
+            w.in_poll_gen = self.gen;
+            let me = self.key as usize;
+            if w.streams[me].gen != self.gen || !w.streams[me].live {
+                // a stream object the queue should no longer hold at all
+                w.streams[me].polled_after_end = true;
+                w.in_poll = false;
+                w.in_poll_key = None;
+                return Poll::Ready(None);
+            }
             if w.stream_polls > 100_000 {
                 // runaway: park without a waker so the queue can finish its loop
                 return Poll::Pending;
@@ -317,9 +375,13 @@ impl Stream for ScriptStream {
             let me = self.key as usize;
             let stale = w.streams[me].gen != self.gen || !w.streams[me].live;
             if stale {
-                // a stream object the queue should no longer hold
-                w.streams[me].polled_after_end = true;
-                Poll::Ready(None)
+                // replaced (or removed) in the window before it decided: behaves like the dead
+                // connection it is - silent, or ended
+                if self.gen % 2 == 0 {
+                    Poll::Pending
+                } else {
+                    Poll::Ready(None)
+                }
             } else if w.exhausted {
                 // yield: wake ourselves right away, hand nothing over
                 if w.stream_polls - w.polls_at_recv_start > 2_000 {
@@ -353,7 +415,11 @@ impl Stream for ScriptStream {
         };
         // window-after: other tasks act after the decision, before the queue puts the stream back
         run_window(&world);
-        world.lock().unwrap().in_poll = false;
+        {
+            let mut w = world.lock().unwrap();
+            w.in_poll = false;
+            w.in_poll_key = None;
+        }
         res
     }
 }
@@ -369,6 +435,10 @@ pub struct RunStats {
     pub n_streams: usize,
     #[serde(default)]
     pub migrated: bool,
+    #[serde(default)]
+    pub replaced: bool,
+    #[serde(default)]
+    pub replaced_during_own_poll: bool,
 }
 
 pub struct RunResult {
@@ -416,6 +486,11 @@ pub fn run_schedule(toks: &[Tok], n_keys: usize, block_on_no_clients: bool) -> R
         polls_at_recv_start: 0,
         spin_detected: false,
         migrated: false,
+        replaced: false,
+        in_poll_key: None,
+        in_poll_gen: 0,
+        grace: None,
+        replaced_during_own_poll: false,
     }));
     // one (flag, waker) per task the receiver lives in; `cur` is the current one
     let flags: Vec<Arc<RecvFlag>> = (0..64)
@@ -447,6 +522,7 @@ pub fn run_schedule(toks: &[Tok], n_keys: usize, block_on_no_clients: bool) -> R
         {
             let mut w = world.lock().unwrap();
             w.polls_at_recv_start = w.stream_polls;
+            w.grace = None;
         }
         let mut cx = Context::from_waker(&wakers[cur.get()]);
         let r = Pin::new(&mut *probe).poll_next(&mut cx);
@@ -474,9 +550,12 @@ pub fn run_schedule(toks: &[Tok], n_keys: usize, block_on_no_clients: bool) -> R
                     fail!(c05, "C05/queue/wrong-key", "item {:?} of stream {} was returned under key {}", item, item.0, key);
                 }
                 let k = item.0 as usize;
+                let grace = w.grace;
                 // history invariant: exactly the next expected item of that stream
                 let s = &mut w.streams[k];
-                if s.gen != item.1 {
+                if s.gen != item.1 && grace == Some((key, item.1)) {
+                    // handed out by the poll during which its stream was replaced: fine
+                } else if s.gen != item.1 {
                     fail!(c05, "C05/queue/delivery-after-removal", "item {:?} of a removed/ended stream generation was delivered (current generation {})", item, s.gen);
                 } else {
                     match s.pending_expect.pop_front() {
@@ -646,6 +725,8 @@ pub fn run_schedule(toks: &[Tok], n_keys: usize, block_on_no_clients: bool) -> R
         stats.window_wakes = w.window_wakes;
         stats.two_busy = w.two_busy;
         stats.migrated = w.migrated;
+        stats.replaced = w.replaced;
+        stats.replaced_during_own_poll = w.replaced_during_own_poll;
         stats.invalid_at = w.invalid_at;
         if w.stream_polls > 100_000 {
             fail!(c06, "C06/queue/spin", "more than 100000 stream polls in one schedule");
@@ -678,6 +759,9 @@ pub fn alphabet(n_keys: usize, with_stale: bool) -> Vec<Tok> {
 pub fn alphabet_m(n_keys: usize, with_stale: bool) -> Vec<Tok> {
     let mut v = alphabet(n_keys, with_stale);
     v.push(Tok::Migrate);
+    for i in 0..n_keys as u8 {
+        v.push(Tok::Replace(i));
+    }
     v
 }
 
@@ -694,6 +778,7 @@ pub fn show(toks: &[Tok]) -> String {
             Tok::Settle => "S".into(),
             Tok::Exhaust => "E".into(),
             Tok::Migrate => "M".into(),
+            Tok::Replace(i) => format!("N{}", i),
         })
         .collect::<Vec<_>>()
         .join(" ")
